@@ -7,7 +7,7 @@ from __future__ import annotations
 
 from ..alpha import CONFIGS_QUICK, CONFIGS_THOROUGH, only_elements, valid_trees
 from ..ref.layout import ref_render_list, ref_render_tag
-from ..space import Seq
+from ..space import Const, Seq
 from ..spec import B, I, Vb, Vi, E, T, H, R, M, build
 
 ID = "C06"
@@ -60,6 +60,23 @@ def make_fn(configs, toplist=False):
     return fn
 
 
+def chain(depth, inner):
+    """div nested `depth` deep around the `inner` children list."""
+    node = E("div", True, inner)
+    for _ in range(depth - 1):
+        node = E("div", True, [node])
+    return node
+
+
+def deep_cases(max_depth):
+    inners = [[T("a"), I([T("b")]), B([T("c")])], [R("<u>r</u>"), B([]), T("x\ny")], [B([T("p"), T("q")])], [M, T("t"), M]]
+    out = []
+    for d in range(1, max_depth + 1):
+        for inner in inners:
+            out.append(chain(d, inner))
+    return out
+
+
 def plan(tier):
     configs = (CONFIGS_QUICK if tier == "quick" else CONFIGS_THOROUGH) + EXTRA_EOL
     fn_tag = make_fn(configs)
@@ -91,4 +108,12 @@ def plan(tier):
         _, blk4 = valid_trees([T("a")], [T("a")], [I], [B], 4, [2, 2, 1, 1])
         out.append(dict(kind="space", name="deep-d4", space=only_elements(blk4), fn=fn_tag,
                         execs=len(configs), note="depth<=4 fan-out (2,2,1,1) over {div,span,text}"))
+    big = [(k, "\n") for k in (5, 9, 10, 11, 12, 13, 16, 31, 32, 33, 64)]
+    out.append(dict(kind="space", name="deep-chains", space=Const(deep_cases(20 if tier == "quick" else 40)),
+                    fn=make_fn(configs + big), execs=len(configs) + len(big),
+                    note="linear chains of 1..20 (quick) / 1..40 nested blocks around 4 inner sibling lists, "
+                         "also under indent = 5..64"))
+    _, blk0 = valid_trees(IL_RED, IL_RED + S_LEAVES[:1], [I, Vi], [B, Vb], 1, 2)
+    out.append(dict(kind="space", name="large-indent", space=only_elements(blk0), fn=make_fn(big),
+                    execs=len(big), note="depth<=1 fan-out<=2 trees under indent in {5..64}"))
     return out
